@@ -258,6 +258,36 @@ def _track(op, i, replies, commits, found):
             del found[key]
 
 
+def _track_stored(op, i, cfg, st):
+    """Book-keeping for the clause `only commits OLDER than the expiry time are ignored on arrival`: st["must"][(c, g)] = (i, t)
+    when op i is a commit that nothing but the too-old rule could drop: known cluster, group not rejected by the lists, the
+    partition has a broker offset (a B op for exactly that partition, not deleted since), it is the first commit for that
+    (cluster, group, topic, partition) since the last deletion touching it (so it appends to an empty ring), and its timestamp is
+    not older than the expiry time.  Cleared by any deletion that touches the group or the topic."""
+    k = op[0]
+    if k == "B":
+        c, t, p, cnt = int(op[2]), int(op[3]), int(op[4]), int(op[5])
+        if 0 <= p < cnt:
+            st["bpart"].add((c, t, p))
+    elif k == "C":
+        c, g, t, p, ts = int(op[2]), int(op[3]), int(op[4]), int(op[5]), int(op[8])
+        thr = threshold(cfg, int(op[1]))
+        if (c in cfg["clusters"] and g not in cfg["rej"] and (c, t, p) in st["bpart"] and (c, g, t, p) not in st["seen"]
+                and -2**63 <= thr < 2**63 and ts >= thr and not (cfg["mode"] in ("allow", "both") and (g == 0 or g > 9))):
+            st["must"][(c, g)] = (i, t)
+        st["seen"].add((c, g, t, p))
+    elif k == "DT":
+        c, t = int(op[2]), int(op[3])
+        st["bpart"] = {x for x in st["bpart"] if not (x[0] == c and x[1] == t)}
+        st["seen"] = {x for x in st["seen"] if not (x[0] == c and x[2] == t)}
+        for key in [x for x, v in st["must"].items() if x[0] == c and v[1] == t]:
+            del st["must"][key]
+    elif k == "DG":
+        c, g, t = int(op[2]), int(op[3]), int(op[4])
+        st["seen"] = {x for x in st["seen"] if not (x[0] == c and x[1] == g and (t == 0 or x[2] == t))}
+        st["must"].pop((c, g), None)
+
+
 def oracle_c09(line, impl_line):
     """All C09 failures of one history: list of (op index, kind, description)."""
     head, ops = SC.split_history(line)
@@ -266,10 +296,12 @@ def oracle_c09(line, impl_line):
     out = []
     commits = {}     # (cluster, group) -> [min ts, max ts] of the commits sent so far
     found = {}       # (cluster, group) -> index of the last FetchConsumer that reported it, reset by deletions touching it
+    stored = {"bpart": set(), "seen": set(), "must": {}}
     for i, op in enumerate(ops):
         k = op[0]
         now = int(op[1])
         _track(op, i, replies, commits, found)
+        _track_stored(op, i, cfg, stored)
         if k in ("DG", "DT"):
             rb, ra = fetch_run_before(ops, i), fetch_run_after(ops, i)
             if not len(ra):
@@ -312,6 +344,13 @@ def oracle_c09(line, impl_line):
             if tss and tss[0] >= thr and last_found is not None and replies[i] == "NIL":
                 out.append((i, "expiry", "%s: every commit of the group is within the expiry time (oldest %d >= %d) and the group was reported at op %d, "
                             "but it is now reported as not found" % (" ".join(op), tss[0], thr, last_found)))
+            m = stored["must"].get((c, g))
+            if m is not None and tss and tss[0] >= thr:
+                tops = consumer_topics(replies[i])
+                if tops is None or m[1] not in tops:
+                    out.append((i, "expiry", "%s: the commit at op %d (%s) is not older than the expiry time (expire-group %d, cutoff %d) and "
+                                "nothing else could drop it, yet the group / its topic %d is not reported: %r"
+                                % (" ".join(op), m[0], " ".join(ops[m[0]]), cfg["expire"], thr, m[1], replies[i][:160])))
             if replies[i] != "NIL":
                 found[(c, g)] = i
             # the read itself: a run of non-purging fetches before, any run after
@@ -499,6 +538,15 @@ def gen_delete(rng, i=0):
     mindist = rng.choice([0, 0, 0, 1, 5])
     clusters = rng.choice([[1, 2], [1, 2], [1, 2], [1], [1, 2, 3]])
     h = H(rng, intervals, expire, mindist, clusters)
+    huge = rng.random() < 0.25
+    if huge:
+        # large but legal expire-group ("never expire" settings), all inside the guard in_i64((now - expire) * 1000) of
+        # expired_spec / too_old_spec; EDGE is the largest value for which the product still fits at the first clock value.
+        # expire * 10^9 does not fit in int64 from 9223372037 s on, so anything that goes through nanoseconds breaks here.
+        edge = h.now + (2**63) // 1000
+        expire = rng.choice([9223372036, 9223372037, 10**10, 31536000000, 2**40, 10**15, edge - 10**6, edge - 1, edge])
+        h.expire = expire
+        h.tags.add("huge-expire" + ("-edge" if expire >= edge - 10**6 else ""))
     ntop = rng.choice([2, 3, 3, 4])
     ngrp = rng.choice([2, 3, 3, 4])
     topics = list(range(1, ntop + 1))
@@ -579,7 +627,11 @@ def gen_delete(rng, i=0):
         elif r < 0.90:
             # expiry: jump the clock, refresh some groups, then ask
             w.fetch_all()
-            h.now += expire + rng.choice([-1, 0, 1, 1, 2, 100])
+            if huge:
+                # the clock is int64 nanoseconds in the probe: jump seconds .. years instead; nothing may expire
+                h.now += rng.choice([60, 86400, 30 * 86400, 10**8])
+            else:
+                h.now += expire + rng.choice([-1, 0, 1, 1, 2, 100])
             for (cc, g), ts_ in sorted(w.gtopics.items()):
                 if ts_ and rng.random() < 0.4:
                     t = rng.choice(sorted(ts_))
@@ -595,7 +647,7 @@ def gen_delete(rng, i=0):
                 w.fetch_lists()
             h.now += 1
             w.fetch_all()
-            h.tags.add("expiry-jump")
+            h.tags.add("expiry-jump" if not huge else "huge-expire-clock-jump")
         else:
             # a commit around the too-old boundary on a live partition
             live = [(cc, g, t) for (cc, g), ts_ in sorted(w.gtopics.items()) for t in sorted(ts_) if (cc, t) in w.pcount]
@@ -603,10 +655,23 @@ def gen_delete(rng, i=0):
                 continue
             cc, g, t = rng.choice(live)
             d = rng.choice([-60000, -1000, -1, -1, 0, 1])
+            if huge and rng.random() < 0.6:
+                # a commit that is seconds .. a year old: far inside the expiry time, must be stored and reported; preferably
+                # the first commit of a group on that topic (then nothing but the too-old rule could drop it)
+                fresh = [(c2, g2, t2) for c2 in clusters for g2 in groups for t2 in topics
+                         if (c2, t2) in w.pcount and t2 not in w.gtopics.get((c2, g2), ())]
+                if fresh:
+                    cc, g, t = rng.choice(fresh)
+                w.fetch_all()
+                w.commit(cc, g, t, ts=(h.now - rng.choice([5, 86400, 30 * 86400, 365 * 86400])) * 1000)
+                w.fetch_all()
+                h.tags.add("huge-expire-old-commit-kept")
+                continue
+            ts = max(-2**63, (h.now - expire) * 1000 + d)
             w.fetch_all()
-            w.commit(cc, g, t, ts=(h.now - expire) * 1000 + d)
+            w.commit(cc, g, t, ts=ts)
             w.fetch_all()
-            h.tags.add("too-old" if d < 0 else "too-old-boundary-kept")
+            h.tags.add("too-old" if ts < (h.now - expire) * 1000 else "too-old-boundary-kept")
         # re-creation and plain traffic between events
         for _ in range(rng.randrange(0, 4)):
             cc = rng.choice(clusters)
